@@ -2,11 +2,11 @@ SPECIFICATION Spec
 CONSTANTS
   MaxLen = 4
   MaxLenCheap = 4
-  InitAll = TRUE
+  InitAll = FALSE
   BugNextArgNoSkip = FALSE
   BugUseFlagAll = FALSE
   BugOptionalOrigState = FALSE
-  BugNames = "none"
+  BugNames = "product_left_only"
 VIEW View
-INVARIANTS TypeOK FamilyTerminates ConsumedExactlyOnce OptionValueNotPositional FlagNeverFails HelpLaw SuccessLeavesNothing
+INVARIANTS OptionValueNotPositional
 CHECK_DEADLOCK FALSE
